@@ -83,8 +83,17 @@ func depthGuardIn(fn *ssa.Function) bool {
 				continue
 			}
 			// compared with something
+			// the incremented value must go somewhere (stored back, or handed to a callee): a
+			// comparison of depth+1 that is never kept does not count anything
+			kept := false
 			for _, ref := range *add.Referrers() {
-				if cmp, ok := ref.(*ssa.BinOp); ok {
+				switch ref.(type) {
+				case *ssa.Store, ssa.CallInstruction, *ssa.Phi:
+					kept = true
+				}
+			}
+			for _, ref := range *add.Referrers() {
+				if cmp, ok := ref.(*ssa.BinOp); ok && kept {
 					switch cmp.Op {
 					case token.GEQ, token.GTR, token.LSS, token.LEQ:
 						return true
